@@ -467,7 +467,60 @@ func c16history(c *fw.Ctx) {
 }
 
 // c16readers: only readers, on a trie whose store lacks some nodes; results must equal the sequential results.
+// c16lostRoot: the trie's root node itself is absent from the store. Concurrent lookups all fail with the missing-node
+// class; afterwards the root is put back and an insert, a delete and a lookup must RETURN (a lock left behind by a failed
+// lookup would block them for good: the stall monitor reports that) and work.
+func c16lostRoot(c *fw.Ctx) {
+	r := c.Rng
+	store := util.NewMemoryNodeDB()
+	m0 := lab.NewMPT(store, c16version, nil)
+	paths := []string{"0a", "0b1c", "1d", "0a2e"}
+	for i, p := range paths {
+		_, _ = m0.Insert(util.Path(p), &lab.Val{B: []byte(fmt.Sprintf("v%d", i))})
+	}
+	root := append([]byte(nil), m0.GetRoot()...)
+	rootNode, _ := store.GetNode(root)
+	_ = store.DeleteNode(root)
+	shared := lab.NewMPT(&jitterDB{NodeDB: store}, c16version, root)
+	var wg sync.WaitGroup
+	var bad atomic.Value
+	for gi := 0; gi < 3+r.Intn(3); gi++ {
+		wg.Add(1)
+		go func(gi int) {
+			defer wg.Done()
+			for i := 0; i < 20; i++ {
+				d, err := shared.GetNodeValueRaw(util.Path(paths[(gi+i)%len(paths)]))
+				if err == nil {
+					bad.Store(fmt.Sprintf("lookup on a trie whose root node is absent returned %q", d))
+				}
+				if i%5 == 0 {
+					_, _ = shared.HasMissingNodes(context.Background())
+				}
+			}
+		}(gi)
+	}
+	wg.Wait()
+	_ = store.PutNode(root, rootNode)
+	if _, err := shared.Insert(util.Path("2f"), &lab.Val{B: []byte("after")}); err != nil {
+		bad.Store(fmt.Sprintf("insert after the root was put back failed: %v", err))
+	}
+	if _, err := shared.Delete(util.Path("1d")); err != nil {
+		bad.Store(fmt.Sprintf("delete after the root was put back failed: %v", err))
+	}
+	if d, err := shared.GetNodeValueRaw(util.Path("2f")); err != nil || string(d) != "after" {
+		bad.Store(fmt.Sprintf("lookup after the root was put back = %q, %v", d, err))
+	}
+	if b := bad.Load(); b != nil {
+		c.Violate("", "trie whose root node was absent while readers ran: %s", b.(string))
+	}
+	c.Count("reader_runs_on_a_lost_root", 1)
+}
+
 func c16readers(c *fw.Ctx) {
+	if c.Idx%8 == 5 {
+		c16lostRoot(c)
+		return
+	}
 	r := c.Rng
 	g := lab.NewPathGen(r)
 	full := util.NewMemoryNodeDB()
@@ -699,11 +752,11 @@ func init() {
 		Race:         true,
 		Rule: "histories: 3..6 goroutines x 4..8 (quick) / 4..11 (thorough) operations (insert with globally unique value, delete, lookup, full Iterate, GetRoot, GetChanges as a snapshot (root plus the content reachable through the returned change set, which must belong to one state), SaveChanges with a plain, an already cancelled and a 20 µs context + GetChangeCount) on 3..5 structurally colliding paths of one trie over a store wrapper that injects Gosched/µs sleeps at GetNode/PutNode/DeleteNode, " +
 			"GOMAXPROCS in {1,2,4,16}; call/return stamped at the client boundary from one monotonic clock; a final sequential Iterate+GetRoot is appended. Each history is checked offline with porcupine against a sequential map model in which Iterate must equal the whole map and every root read must equal the independent canonical root (C02 reference) of the state at its linearization point. " +
-			"a quarter of the histories run on a trie object re-opened at the root of preloaded content (saves then go to a layered store with includeDeletes=true); a quarter also merge child tries back (one insert each, through MergeChanges or MergeMPTChanges), modelled as a compare-and-set on the whole content; half of the histories start from a preloaded trie whose node cache was committed to the lower cache layer. expired-save runs: SaveChanges with an already cancelled context followed by 5..45 inserts; the side store may only receive nodes that were pending at the call. reader runs (half with a warmed and committed node cache): 4..8 goroutines doing lookups, Iterate, HasMissingNodes, GetMissingNodeKeys on a trie whose store lacks ~20% of the nodes; results must equal the sequential results; in two thirds of the reader runs 1..2 writers insert fresh paths at the same time (the readers' expected results do not change; afterwards every inserted path and every preloaded path is read again). A case that does not finish within 240 s (normal: well under a second plus at most 30 s of history checking) ends the worker and is reported: an operation did not return. Everything runs in the -race binary; each distinct race report (pair of outermost 0chain/common frames) is a violation. " +
+			"a quarter of the histories run on a trie object re-opened at the root of preloaded content (saves then go to a layered store with includeDeletes=true); a quarter also merge child tries back (one insert each, through MergeChanges or MergeMPTChanges), modelled as a compare-and-set on the whole content; half of the histories start from a preloaded trie whose node cache was committed to the lower cache layer. expired-save runs: SaveChanges with an already cancelled context followed by 5..45 inserts; the side store may only receive nodes that were pending at the call. reader runs (half with a warmed and committed node cache): 4..8 goroutines doing lookups, Iterate, HasMissingNodes, GetMissingNodeKeys on a trie whose store lacks ~20% of the nodes; results must equal the sequential results; in two thirds of the reader runs 1..2 writers insert fresh paths at the same time (the readers' expected results do not change; afterwards every inserted path and every preloaded path is read again). Every eighth reader run instead removes the root node itself, lets 3..5 goroutines look up (all must fail), puts the root back and requires an insert, a delete and a lookup to return and work. A case that does not finish within 240 s (normal: well under a second plus at most 30 s of history checking) ends the worker and is reported: an operation did not return. Everything runs in the -race binary; each distinct race report (pair of outermost 0chain/common frames) is a violation. " +
 			"non-trivial = history with at least one update overlapping another goroutine's operation; distinct by (scripts, overlap count)",
 		Cases: func(tier string) int { h, r, e := c16layout(tier); return h + r + e },
 		Run:   runC16,
-		Floors: map[string]int64{"histories": 4500, "linearizable": 4500, "operations": 80000, "overlapping_pairs": 20000, "histories_with_overlapping_updates": 2000, "reader_runs": 800, "reader_runs_with_writers": 400, "reader_runs_with_missing_nodes": 600, "final_saves_checked": 4500, "histories_with_committed_node_cache": 1500, "histories_on_a_reopened_trie": 800, "histories_with_merges": 800, "merges_accepted": 500, "merges_rejected": 100, "reader_runs_with_committed_node_cache": 50, "expired_save_runs": 1500,
+		Floors: map[string]int64{"histories": 4500, "linearizable": 4500, "operations": 80000, "overlapping_pairs": 20000, "histories_with_overlapping_updates": 2000, "reader_runs": 650, "reader_runs_on_a_lost_root": 80, "reader_runs_with_writers": 330, "reader_runs_with_missing_nodes": 500, "final_saves_checked": 4500, "histories_with_committed_node_cache": 1500, "histories_on_a_reopened_trie": 800, "histories_with_merges": 800, "merges_accepted": 500, "merges_rejected": 100, "reader_runs_with_committed_node_cache": 50, "expired_save_runs": 1500,
 			"gomaxprocs:1": 100, "gomaxprocs:16": 100},
 		Assumptions: []string{
 			"histories are small (<= 6 x 11 operations) and numerous; a porcupine timeout (30 s) would be inconclusive, never a violation",
